@@ -220,6 +220,9 @@ func probeChild(planFile string) {
 						}
 					case "flush":
 						_ = v.Flush()
+						if rl := v.Realm(); len(rl) > 0 {
+							rl[0] ^= 0xa5 // the caller owns what Realm() returned
+						}
 					case "bset":
 						_ = shared[c.view].Set(c.key, val)
 					case "bdel":
